@@ -407,9 +407,15 @@ def replay_relation(inputs):
         tr = lambda x, y: 0.3 * x - 0.2 * y * y
         a, b = est(X, F[0], mean=cst, trend=tr), est(X, F[0] - tr(X[0], X[1]))
     elif kind == "latlon_units":
-        LL = np.array([np.clip(X[0] * 20, -89, 89), X[1] * 40])
-        a = gs.vario_estimate(LL, F[0], np.array(B, dtype=float), latlon=True, geo_scale=R, return_counts=True)
-        b = gs.vario_estimate(LL, F[0], [x / R for x in B], latlon=True, return_counts=True)
+        # generic, well separated points (the relation is about units, not about the witness geometry);
+        # checked for the witness edges and for edges that bracket the actual great-circle distances
+        LL = np.array([[10.0, -35.0, 60.0, 5.0][:n], [20.0, 170.0, -100.0, 75.0][:n]])
+        Fg = np.array([0.3, -1.1, 2.0, 0.7][:n])
+        for Bc in (list(B), [R * 0.05, R * 1.4, R * 2.9]):
+            a = gs.vario_estimate(LL, Fg, np.array(Bc, dtype=float), latlon=True, geo_scale=R, return_counts=True)
+            b = gs.vario_estimate(LL, Fg, [x / R for x in Bc], latlon=True, return_counts=True)
+            if not (np.allclose(a[1], b[1], **tol) and list(a[2]) == list(b[2])):
+                return False, f"geo_scale={R} edges={Bc}: estimate with length units {np.asarray(a[1]).tolist()} {list(a[2])} != estimate in radians {np.asarray(b[1]).tolist()} {list(b[2])}"
     elif kind == "structured":
         gx, gy = [_val(v, "gx0", 0.0), _val(v, "gx1", 1.3)], [_val(v, "gy0", 0.2), _val(v, "gy1", 0.9), _val(v, "gy2", 2.4)]
         G = np.array([[_val(v, f"g{i}{j}", 0.7 * i - 0.4 * j * j) for j in range(3)] for i in range(2)])
